@@ -42,6 +42,19 @@ func (s *scanner) setPaging(query ast.Query) {
 	s.targetLimit = *query.GetLimit()
 }
 
+// maxResults returns how many rows a sorting scan has to keep: the rows to skip plus the rows to return. A negative
+// skip skips nothing and the sum saturates instead of overflowing (skip N with no limit means limit MaxInt64)
+func (s *scanner) maxResults() int64 {
+	offset := s.targetOffset
+	if offset < 0 {
+		offset = 0
+	}
+	if s.targetLimit > math.MaxInt64-offset {
+		return math.MaxInt64
+	}
+	return offset + s.targetLimit
+}
+
 type uniqueIndexScanner struct {
 	scanner
 	store     Store
@@ -236,7 +249,7 @@ func (scanner *sortingScanner) ScanCursor(tx *bbolt.Tx, cursorProvider ast.SetCu
 	// function instead of putting the comparison on the elements, so we don't need to store a context with each row
 	results := &llrb.Tree{}
 	isChildStore := scanner.store.IsChildStore()
-	maxResults := scanner.targetOffset + scanner.targetLimit
+	maxResults := scanner.maxResults()
 	for cursor.IsValid() {
 		current := cursor.Current()
 		cursor.Next()
